@@ -80,3 +80,21 @@ MODULES += [
      "roots": [("PoseidonGoldilocks", n) for n in ["pow7_avx512", "add_avx512", "add_avx512_small", "hash_full_result_avx512",
                                                    "hash_avx512"]]},
 ]
+
+
+def _not(f):
+    return lambda d: not f(d)
+
+
+WRAP_BATCH = ["copy_batch", "add_batch", "sub_batch", "mul_batch"]
+WRAP_AVX2 = ["set_avx", "load_avx", "load_avx_a", "store_avx", "store_avx_a", "copy_avx", "add_avx", "sub_avx", "mul_avx"]
+WRAP_AVX512 = ["load_avx512", "load_avx512_a", "store_avx512", "store_avx512_a", "copy_avx512",
+               "add_avx512", "sub_avx512", "mul_avx512"]
+MODULES += [
+    {"name": "WrapBatch", "sigs": True, "ns": "Gen.WrapBatch", "imports": VEC_IMPORTS, "needs_globals": True,
+     "roots": [("Goldilocks", n) for n in WRAP_BATCH]},
+    {"name": "WrapAvx2", "sigs": True, "ns": "Gen.WrapAvx2", "imports": VEC_IMPORTS + ["GoldilocksVerif.Gen.Avx2", "GoldilocksVerif.Gen.Avx2Mat"], "needs_globals": True,
+     "roots": [("Goldilocks", n) for n in WRAP_AVX2]},
+    {"name": "WrapAvx512", "sigs": True, "ns": "Gen.WrapAvx512", "imports": VEC_IMPORTS + ["GoldilocksVerif.Gen.Avx512", "GoldilocksVerif.Gen.Avx512Mat", "GoldilocksVerif.Gen.PosAvx512"], "needs_globals": True,
+     "roots": [("Goldilocks", n) for n in WRAP_AVX512]},
+]
